@@ -26,8 +26,8 @@ What the manual says (and what is encoded here)
     instructions is missing") - so `#` inside an instruction is an ordinary character.
 
 The reader works on the text of a whole test case (the small subset of instructions C09 generates: def string,
-def list, file, %, run) so that what follows an instruction - a swallowed or split next argument / next line -
-is part of the prediction.
+def list, file [-rel-act] FILE-NAME [= TEXT-SOURCE], %, run) so that what follows an instruction - a swallowed or
+split next argument / next line - is part of the prediction.
 
 `defects` (a set of names) switches on emulations of *known deviations* of the implementation; they are used
 ONLY to recognise known findings (to predict the defective observation), never to decide what is expected:
@@ -356,7 +356,6 @@ def denoted_list(source, symbols, defects=frozenset(), program_arguments=False):
 # interpreter of the instruction subset used by C09
 # -------------------------------------------------------------------------------------------------
 _RE_DEF = re.compile(r'def (string|list) ([A-Za-z0-9_]+) =')
-_RE_FILE = re.compile(r'file ([A-Za-z0-9_.]+) =')
 _RE_PHASE = re.compile(r'\[[a-z-]+\][ \t]*$')
 
 
@@ -462,12 +461,24 @@ def interpret(case_text, probe_path=None, defects=frozenset()):
                     ins.value = c.list_()
                     c.expect_end_of_line()
             else:
-                m = _RE_FILE.match(line)
-                if m:
-                    c.pos = pos + m.end()
+                if line.startswith('file '):
+                    # file [-rel-act] FILE-NAME [= TEXT-SOURCE]      (PATH: FILE-NAME is a STRING)
+                    c.pos = pos + 5
                     ins.kind = 'file'
-                    ins.name = m.group(1)
-                    ins.value = _parse_text_source(c)
+                    tok = c.next_token()
+                    if tok is not None and tok.naked_word() == '-rel-act':
+                        tok = c.next_token()
+                    if tok is None:
+                        raise ReadError('syntax', 'missing-file-name', c.pos)
+                    ins.name = c._string_of(tok)
+                    tok = c.next_token()
+                    if tok is None:
+                        ins.value = None  # "file PATH: Creates an empty regular file"
+                        c.to_next_line()
+                    elif tok.naked_word() == '=':
+                        ins.value = _parse_text_source(c)
+                    else:
+                        raise ReadError('syntax', 'superfluous-arguments', tok.start)
                 elif line.startswith('% '):
                     c.pos = pos
                     ins.kind = 'program'
@@ -503,11 +514,14 @@ def interpret(case_text, probe_path=None, defects=frozenset()):
                 symbols[ins.name] = ('list', resolve_list(ins.value, symbols))
             elif ins.kind == 'file':
                 v = ins.value
-                if v.whole_ref is not None and v.whole_ref in symbols and symbols[v.whole_ref][0] != 'string':
-                    raise ReadError('validation', 'illegal-type')
-                if ins.name in files:
-                    raise ReadError('hard', 'file-exists')
-                files[ins.name] = resolve_string(v, symbols)
+                for e in (ins.name, v):
+                    if e is not None and e.whole_ref is not None and e.whole_ref in symbols \
+                            and symbols[e.whole_ref][0] != 'string':
+                        raise ReadError('validation', 'illegal-type')
+                name = resolve_string(ins.name, symbols)
+                if name in files or name in ('', '.', '..') or '/' in name:
+                    raise ReadError('hard', 'file-exists-or-not-a-plain-file-name')
+                files[name] = '' if v is None else resolve_string(v, symbols)
             elif ins.kind == 'program':
                 pgm, args = ins.value
                 p = resolve_string(pgm, symbols)
